@@ -38,6 +38,7 @@ package main
 
 import (
 	"bytes"
+	"compress/zlib"
 	"encoding/hex"
 	"encoding/json"
 	"fmt"
@@ -428,6 +429,51 @@ func famB(L int, thorough bool) []func(slot int) {
 
 var jsonTokens = []string{"{", "}", "[", "]", ":", ",", `"text"`, `"extra"`, `"with"`, `"translate"`, `"a"`, "1", "null"}
 
+// famInflated: family (f). For the compressed-frame decoders every byte string of length <= L over
+// the 7-symbol alphabet is taken as the INFLATED content (packet id varint, canonical or over-long,
+// followed by data), deflated by compress/zlib, and framed with every declared data length
+// 1..len+1: malformed content behind a well-formed zlib stream, which byte-level mutation of the
+// frame cannot produce. No error obligation: no panic, no non-termination.
+func famInflated(L int) []func(slot int) {
+	var jobs []func(slot int)
+	for _, d := range decoders {
+		d := d
+		if !d.Reframe {
+			continue
+		}
+		jobs = append(jobs, func(slot int) {
+			var n int64
+			body := make([]byte, 0, L)
+			var rec func()
+			rec = func() {
+				if len(body) > 0 {
+					var zb bytes.Buffer
+					zw := zlib.NewWriter(&zb)
+					zw.Write(body)
+					zw.Close()
+					for dl := 1; dl <= len(body)+1; dl++ {
+						runCase(slot, d, refframe.AppendRawCompressed(nil, int32(dl), zb.Bytes()), "famF:inflated-body", -1)
+						n++
+					}
+				}
+				if len(body) == L {
+					return
+				}
+				for _, a := range alphabet {
+					body = append(body, a)
+					rec()
+					body = body[:len(body)-1]
+				}
+			}
+			rec()
+			rep.Count("famF_inflated_body_frames", n)
+			rep.NonTrivial(n)
+			rep.AddStates(n)
+		})
+	}
+	return jobs
+}
+
 func famJSON(N int) []func(slot int) {
 	var jobs []func(slot int)
 	for _, d := range decoders {
@@ -495,6 +541,7 @@ func main() {
 	jobs = append(jobs, famCommands(M)...)
 	jobs = append(jobs, famJSON(N)...)
 	jobs = append(jobs, famA(L)...)
+	jobs = append(jobs, famInflated(4)...)
 	engine.ParallelFor(len(jobs), func(slot, i int) { jobs[i](slot) })
 
 	var famAStrings int64
